@@ -575,3 +575,55 @@ def narrowing_uses(lib, body, src_event):
         if any(o_[0] == "call" and o_[1] == src_event.name and o_[2] == src_event.bb for o_ in oo):
             out.append(x)
     return out
+
+
+def finish_only_when_exhausted(ck, w, rid):
+    """backup(): the band is closed (BackupWriter::finish -> Band::close writes the tail) only when the merge loop ended
+    normally. Closing it on an error / early-exit path would mark an interrupted version complete."""
+    lib = w.lib
+    o = ck.ob(rid, "backup(): BackupWriter::finish (which writes the tail) is reached only when the merge of basis and source is exhausted - "
+                        "never from an error or early-exit path")
+    bkb = w.body("backup::backup")
+    fins = events_of(lib, bkb, "backup::BackupWriter::finish")
+    mnx = events_of(lib, bkb, "merge::MergeTrees::next")
+    none_edges = set()
+    for e in mnx:
+        for (sb_, tested, arms_, other_) in flow.discriminant_switches(bkb, flow.result_carriers(bkb, e.dest["l"])):
+            if bkb.locals[tested].startswith("std::option::Option"):
+                none_edges.add((sb_, arms_[0] if 0 in arms_ else other_))
+    if not fins or not none_edges:
+        ck.fail(o, bkb.name, "anchor-missing", "finish events=%d, loop-exit edges=%d" % (len(fins), len(none_edges)))
+    else:
+        early = [f for f in fins if not bkb.must_pass_edges(none_edges, f.bb)]
+        if early:
+            ck.fail(o, bkb.name, "band closed on an early exit", "BackupWriter::finish is reachable while entries remain: %s" %
+                    rules.witness(bkb, early[0].bb, removed_edges=none_edges), early[0].site())
+        else:
+            ck.ok(o, sites=[f.site() for f in fins])
+
+
+def protocol_dispatch_by_name(ck, w, rid):
+    lib = w.lib
+    o = ck.ob(rid, "the Transport dispatcher calls, on its protocol, only the method of its own name: Protocol::remove_file / remove_dir_all are "
+                        "called from Transport::remove_file / remove_dir_all only (a failed write never 'cleans up' at this level)")
+    badp = []
+    n_disp = 0
+    for meth in ("remove_file", "remove_dir_all", "write", "create_dir"):
+        decl = "transport::protocol::Protocol::" + meth
+        for b in rules.user_bodies(lib):
+            if rules.is_derive_body(b):
+                continue
+            for e in b.events:
+                if e.bb in b.live and e.callee == decl:
+                    n_disp += 1
+                    inside_protocol = (b.trait or "") == "transport::protocol::Protocol" or \
+                        (lib.bodies.get(b.root) is not None and (lib.bodies[b.root].trait or "") == "transport::protocol::Protocol")
+                    if b.root != "transport::Transport::" + meth and not inside_protocol:
+                        badp.append((b, e, meth))
+    ck.floor(rid + ".n", "virtual Protocol::{write,create_dir,remove_*} calls", n_disp, 4)
+    if badp:
+        b, e, meth = badp[0]
+        ck.fail(o, b.root, "Protocol::%s called outside Transport::%s" % (meth, meth), "%s calls Protocol::%s" % (b.root, meth), e.site())
+    else:
+        ck.ok(o, "%d dispatch site(s)" % n_disp, instances=n_disp)
+
